@@ -1,5 +1,6 @@
 import OrsoVerif.Model.PyVal
 import OrsoVerif.Model.GroupBy
+import OrsoVerif.Model.GroupByCode
 /-! Driver glue for C12: decode a frame, key columns and requests; run the model; encode. -/
 namespace Drv.C12
 open GroupBy
@@ -41,6 +42,19 @@ def opSupported (fr : Frame) : Op → Bool
   | .aggregate reqs => supported fr reqs
   | .groups => true
 
+/-- For the code-level model: when the source yields `record[-1]` for a column that is not in the frame,
+that last cell must be a number or null as well. -/
+def opSupportedC (fr : Frame) : Op → Bool
+  | .aggregate reqs =>
+    supported fr reqs &&
+      (GroupByCode.source.value == .starIfMissing ||
+        reqs.all fun q => (index q.2 fr.columns).isSome || fr.rows.all fun r =>
+          match r.getLastD .none with
+          | .int _ => true
+          | .none => true
+          | _ => false)
+  | .groups => true
+
 def encodeTable (hr : List String × List (List PyVal)) : PyVal :=
   .list [.str "ok", .list (hr.1.map .str), .list (hr.2.map .list)]
 
@@ -73,6 +87,29 @@ def handle (op : String) (args : List PyVal) : Option (List PyVal) :=
       | .error .valueError => pure [.list [.str "err", .str "ValueError"]]
       | .ok outs => pure [.list [.str "seq", .list (outs.map encodeTable)]]
     else none
+  | "code_calls", [.list cols, .list rows, .bool lazy, .list objs, .list calls] => do
+    -- the code-level model: the program read from the working tree (`GroupByCode.source`), any
+    -- sequence of calls on several GroupBy objects of one frame, lazily backed or materialised
+    let cols ← cols.mapM decodeStr
+    let rows ← rows.mapM (decodeRow cols.length)
+    let objs ← objs.mapM fun o => match o with
+      | .list ks => ks.mapM decodeStr
+      | _ => none
+    let idxs ← objs.mapM fun ks => ks.mapM fun k => index k cols
+    let calls ← calls.mapM fun c => match c with
+      | .list [.int g, op] => do
+        let op ← decodeOp op
+        if 0 ≤ g ∧ g.toNat < objs.length then pure (g.toNat, op) else none
+      | _ => none
+    let fr : Frame := { columns := cols, rows := rows }
+    if calls.all (fun c => opSupportedC fr c.2) then
+      pure [.list ((GroupByCode.runCallsF GroupByCode.source fr lazy objs idxs calls).map fun r =>
+        match r with
+        | .error c => .list [.str "err", .str c]
+        | .ok hr => encodeTable hr)]
+    else none
+  | "code_program", [] =>
+    pure [.str (reprStr GroupByCode.source)]
   | _, _ => none
 
 end Drv.C12
